@@ -93,7 +93,7 @@ pub fn universe() -> Vec<RuleSpec> {
     r.ips = Some(vec![(true, "10.0.0.1".into()), (true, "10.0.0.1/32".into())]);
     r.methods = Some(vec!["GET".into(), "GET".into()]);
     v.push(r);
-    // r15: a header pattern with an upper-case literal (header patterns are matched as written, whatever ignore_header_case)
+    // r15: a header pattern with an upper-case literal (under ignore_header_case the request value arrives lower-cased: the pattern must then be read without regard to case)
     let mut r = mk("r15", "r15 headers{X match_regex V@m}");
     r.headers = vec![hc("match_regex", "X", Some("V@m"))];
     r.markers.push(("m".into(), "[0-9]+".into()));
